@@ -89,3 +89,10 @@ def search(ctx):
 
 def replay(ctx, case):
     return replay_eval(ctx, "C18", case)
+
+
+MANIFEST = dict(
+    text='Proof (PARTIAL): the S-matrix angle gives cos^2 = p/(p+1) and splits a generator amplitude sqrt((p+1)/m) into a stored modulus 1/sqrt(m) and sqrt(p/m) (C18_theta, C18_split). Tie: the instruction list of FnPointsInitialize is compared inside Coq with FnPointsModel.fn_gates for dictionaries in every order (cu parameters must be bit-identical to the closed forms). The full-state claim is evaluated.',
+    note='Modelled, not verified: explicit-state invariant over the points (evaluated); Qiskit cu.',
+    technique='Coq proof (real sqrt/acos identities) + instruction-list correspondence (vm_compute) + state-vector evaluation',
+    design_ref='DESIGN.md section 4, C18')
